@@ -26,6 +26,7 @@ type c09Client struct {
 	Kind    string   `json:"transport"`
 	StartMs int      `json:"start_offset_ms"`
 	Ops     []string `json:"ops"` // data | host | ka | unk | close | ooo | fin | rst  (close/ooo/fin/rst end the script)
+	ReuseID  bool    `json:"reuses_connection_id,omitempty"` // websocket: the client presents the Rdg-Connection-Id another of its tunnels (same user, same case) is using
 	SecondIn bool    `json:"second_in_early,omitempty"` // legacy: RDG_IN_DATA is retried with the same connection id before the first one sent its preamble
 }
 
@@ -45,9 +46,10 @@ func genC09(t *rapid.T) c09Case {
 	for i := 0; i < k; i++ {
 		cl := c09Client{Kind: genKind(t), StartMs: rapid.IntRange(0, 4).Draw(t, "start")}
 		cl.SecondIn = cl.Kind == "legacy" && rapid.IntRange(0, 4).Draw(t, "secondIn") == 0
+		cl.ReuseID = cl.Kind == "ws" && rapid.IntRange(0, 3).Draw(t, "reuseID") == 0
 		n := rapid.IntRange(0, 6).Draw(t, "nops")
 		for j := 0; j < n; j++ {
-			cl.Ops = append(cl.Ops, rapid.SampledFrom([]string{"data", "data", "host", "host", "ka", "unk"}).Draw(t, "op"))
+			cl.Ops = append(cl.Ops, rapid.SampledFrom([]string{"data", "data", "host", "host", "ka", "unk", "ping-while-host-sends"}).Draw(t, "op"))
 		}
 		cl.Ops = append(cl.Ops, rapid.SampledFrom([]string{"close", "close-while-host-sends", "ooo", "ooo-while-host-sends", "fin", "rst", "fin-while-host-sends"}).Draw(t, "end"))
 		c.Clients = append(c.Clients, cl)
@@ -139,7 +141,11 @@ func runC09Client(i int, cl c09Client, o gwOpts, tgt gwc.Target, from int) (err 
 			}
 		}
 	} else {
-		conn, e = gwc.Dial(cl.Kind, tgt, sess.NewConnID())
+		id := sess.NewConnID()
+		if cl.ReuseID {
+			id = c09SharedID(from)
+		}
+		conn, e = gwc.Dial(cl.Kind, tgt, id)
 	}
 	if e != nil {
 		return fmt.Sprintf("client %d: transport did not open: %v", i, e)
@@ -185,6 +191,16 @@ func runC09Client(i int, cl c09Client, o gwOpts, tgt gwc.Target, from int) (err 
 			}
 		case "ka":
 			conn.Send(tsgu.Keepalive())
+		case "ping-while-host-sends":
+			// websocket pings while the relay is writing to the same connection
+			if ws, ok := conn.(*gwc.WS); ok {
+				busy := hostBusy()
+				for k := 0; k < 20; k++ {
+					ws.SendPing([]byte{byte(k)})
+					time.Sleep(200 * time.Microsecond)
+				}
+				<-busy
+			}
 		case "unk":
 			conn.Send(tsgu.Packet(0xB, []byte{1, 2, 3}))
 		default:
@@ -364,4 +380,9 @@ func TestC09_RACE(t *testing.T) {
 		}
 		return nt, cl
 	}, runC09)
+}
+
+// c09SharedID: one connection identifier per case (the accept-log position at its start tells the cases apart).
+func c09SharedID(from int) string {
+	return fmt.Sprintf("{5ba4ed00-0000-4000-8000-%012x}", from)
 }
